@@ -1223,7 +1223,7 @@ def shuffle(lst, random=None):
 
     '''
 
-    _libsc3.main._rgen.shuffle(lst, random)
+    _libsc3.main._rgen.shuffle(lst)
 
 def scramble(lst, random=None):
     '''Return a new shuffled list from `lst`.
@@ -1234,7 +1234,7 @@ def scramble(lst, random=None):
     '''
 
     lst = lst.copy()
-    _libsc3.main._rgen.shuffle(lst, random)
+    _libsc3.main._rgen.shuffle(lst)
     return lst
 
 # mirror, mirror1, mirror2  # one mirror with mode.
